@@ -5,8 +5,15 @@ ONNX loader; attribute variants for Cast, CastLike, EyeLike, ConstantOfShape, Se
 QuantizeLinear, Multinomial ...) for its output-type rules (Operator::output_types) and runs it with
 inputs of every element type (f32, i32, i8, u8; sequences thereof); graph level, it records the operator
 nodes of small multi-operator models with their rules, the labels computed by the real infer_shapes(),
-the run-time type of every value, and the outputs of the optimised model (CastElimination relies on the
-labels).  TypeRules.tla defines Predict(rule, input types) and the propagation over a graph; TLC
+the run-time type of every value, the types the optimised model shows on surviving values
+(Model::node_info().dtype()) and the outputs of the optimised model (CastElimination relies on the labels).
+A second graph-level family takes every catalogue operator that can have several outputs (TopK, Split,
+DynamicQuantizeLinear, Dropout, GRU, LSTM, BatchNormalization, Attention, MultiHeadAttention,
+GroupQueryAttention, Skip(Simplified)LayerNormalization) and every non-empty subset of used output slots
+(omitted outputs = empty ONNX output names, earlier-omitted/later-used and trailing omissions, the latter
+also as a shorter output list), feeds each used output through an Identity so that its only label is the
+one graph-level inference attaches, and judges declared vs produced type per used output VALUE; patterns
+the loader or operator rejects are outcomes.  TypeRules.tla defines Predict(rule, input types) and the propagation over a graph; TLC
 evaluates them on the trace (Trace_Relational.tla) and compares with the produced types."""
 import collections
 import json
@@ -39,6 +46,8 @@ def scan(trace):
             o["ok"] += 1
             if cur["prop"] == "C12":
                 combo = ",".join(cur["in_types"]) + " -> " + ",".join(v["dtype"] for v in r["outputs"])
+            elif cur["key"].startswith("omit:"):
+                combo = "%s: %d values" % (cur["cls"], len(r["actual"]))
             else:
                 combo = "%d values" % len(r["actual"])
             o["combos_ok"][combo] = o["combos_ok"].get(combo, 0) + 1
@@ -63,11 +72,11 @@ def run(ctx):
     trace = ctx.path("types.ndjson")
     if ctx.replay:
         key = ctx.replay["record"]["case"]["key"]
-        ctx.harness("vh-ops", ["relational", "types", "--out", trace, "--cases", 20, "--only", "graph:" if key.startswith("graph:") else key])
+        ctx.harness("vh-ops", ["relational", "types", "--out", trace, "--cases", 20, "--omit-reps", 4, "--only", "graph:" if key.startswith("graph:") else key])
     elif ctx.quick:
         ctx.harness("vh-ops", ["relational", "types", "--out", trace, "--cases", 6, "--graph-rounds", 8])
     else:
-        ctx.harness("vh-ops", ["relational", "types", "--out", trace, "--cases", 150, "--graph-rounds", 200], timeout=3000)
+        ctx.harness("vh-ops", ["relational", "types", "--out", trace, "--cases", 150, "--graph-rounds", 200, "--omit-reps", 12], timeout=3000)
     res = ctx.tlc_trace(SPEC, CFG, trace, timeout=3000, heap="12g")
     st = res["stats"]
     ops, total, nontrivial, samples = scan(trace)
@@ -79,6 +88,10 @@ def run(ctx):
     ctx.cov["outputs_with_prediction"] = st.get("typed_outputs", 0)
     ctx.cov["outputs_without_prediction"] = st.get("untyped_outputs", 0)
     ctx.cov["graph_values_judged"] = st.get("graph_values", 0)
+    omit = {k: o for k, o in ops.items() if k.startswith("omit:")}
+    ctx.cov["omitted_output_operator_variants"] = len(omit)
+    ctx.cov["omitted_output_patterns_run_ok"] = sum(len(o["combos_ok"]) for o in omit.values())
+    ctx.cov["omitted_output_cases"] = sum(o["runs"] for o in omit.values())
     ctx.cov["operators_exercised"] = len(ops)
     ctx.cov["operators_without_rules"] = sorted(k for k, o in ops.items() if o["rules"] is None and not k.startswith("graph:"))
     ctx.cov["operators"] = ops
@@ -87,7 +100,7 @@ def run(ctx):
     ctx.finish(
         rule="case = (catalogue operator variant incl. type-changing attribute variants, primary input element type in "
              "{f32,i32,i8,u8}, seeded inputs) or (multi-operator model, inputs); distinct by (operator variant, input type "
-             "combination -> produced types); non-trivial = the run succeeded and an output has a declared rule "
+             "combination -> produced types) resp. (operator variant, used-output pattern); non-trivial = the run succeeded and an output has a declared rule "
              "(graph level: the model ran and every produced value was typed at run time)",
         assumptions=["an element-type combination is 'accepted' when Operator::run succeeds on it; rejected combinations carry no claim",
                      "subgraph operators (If, Loop) are not run at operator level (their output types come from the subgraph)"],
